@@ -397,8 +397,8 @@ class Recorder:
                 self.ev('snap', paths=self.snapshot())
         self.ev('end')
         for b in list(self.browsers.values()):
-            await b.async_cancel()
-        await self.host.aiozc.async_close()
+            await simnet.quiet(b.async_cancel())
+        await simnet.quiet(self.host.aiozc.async_close())
 
     def run(self) -> dict:
         self.net.run(self.main(), limit_ms=self.sc.get('limit_ms', 48 * 3600 * 1000))
